@@ -55,6 +55,11 @@ type M14Case struct {
 	Mode string   `json:"mode"` // direct | proxy
 	Msgs []M14Msg `json:"msgs"`
 	Reqs []M14Req `json:"reqs"`
+	// MoveAt (direct mode): before request number MoveAt (1-based; 0: never) the operator edits the
+	// configuration file - the managed endpoint billing/invoice.created moves from /r to /other. The
+	// edit keeps the file size and the file keeps its modification time (same second), so only reading
+	// the file shows the change.
+	MoveAt int `json:"move_at,omitempty"`
 }
 
 const (
@@ -115,6 +120,15 @@ func genM14Case() *rapid.Generator[M14Case] {
 			return r
 		})
 		c.Reqs = rapid.SliceOfN(rg, 1, 4).Draw(t, "reqs")
+		if c.Mode == "direct" && len(c.Reqs) > 1 && rapid.IntRange(0, 2).Draw(t, "move") == 0 {
+			c.MoveAt = rapid.IntRange(2, len(c.Reqs)).Draw(t, "move_at")
+			// the requests after the edit select by endpoint name more often
+			for k := c.MoveAt - 1; k < len(c.Reqs); k++ {
+				if strings.HasSuffix(c.Reqs[k].Tool, "_by_filter") && rapid.Bool().Draw(t, "scoped_after") {
+					c.Reqs[k].Route, c.Reqs[k].Scoped = 0, true
+				}
+			}
+		}
 		return c
 	})
 }
@@ -278,7 +292,27 @@ func runM14(c M14Case) *mOutcome {
 	var audit bytes.Buffer
 	srv := NewServer(strings.NewReader(""), &bytes.Buffer{}, cfgPath, dbPath, WithRole(RoleAdmin), WithPrincipal("op"), WithAuditWriter(&audit), WithMutationsEnabled(true))
 	labels["mode-"+c.Mode] = true
+	scopedRoute := 0 // the route billing/invoice.created names
 	for i, r := range c.Reqs {
+		if c.MoveAt == i+1 && c.Mode == "direct" {
+			fi, err := os.Stat(cfgPath)
+			if err != nil {
+				out.Failure = mfail("HARNESS", "stat", "", "%v", err)
+				return out
+			}
+			moved := fmt.Sprintf("pull_api {\n  auth token raw:t\n}\n\"/r\" {\n  deliver %q {\n  }\n  deliver %q {\n  }\n}\n\"/other\" {\n  application \"billing\"\n  endpoint_name \"invoice.created\"\n  deliver %q {\n  }\n}\n", m14A, m14B, m14A)
+			if len(moved) != len(cfg) || compileOK([]byte(moved)) != nil {
+				out.Failure = mfail("HARNESS", "cfg", "", "edited config: size %d vs %d, compile: %v", len(moved), len(cfg), compileOK([]byte(moved)))
+				return out
+			}
+			if err := os.WriteFile(cfgPath, []byte(moved), 0o600); err != nil {
+				out.Failure = mfail("HARNESS", "cfg", "", "%v", err)
+				return out
+			}
+			_ = os.Chtimes(cfgPath, fi.ModTime(), fi.ModTime())
+			scopedRoute = 1
+			labels["endpoint-moved-between-calls"] = true
+		}
 		st, closeSt, err := reopen()
 		if err != nil {
 			out.Failure = mfail("HARNESS", "reopen", "", "%v", err)
@@ -386,6 +420,9 @@ func runM14(c M14Case) *mOutcome {
 				}
 			}
 			route := m14Routes[r.Route]
+			if r.Scoped {
+				route = m14Routes[scopedRoute]
+			}
 			for _, m := range before {
 				if m.Route != route {
 					continue
